@@ -3,7 +3,7 @@
    positive stay the Coq datatypes.  No Extract Constant directive is used. *)
 Require Extraction.
 Require Import ExtrOcamlBasic.
-From XtModel Require Import Base InputModel Utf8 UtfModel TranscodeModel FidelityModel ChunkerModel MemModel FormatsModel IoModel DetectModel CliModel MsgpackModel JsonModel JsonWriteModel JsonFloatModel JsonTrialModel TomlAcceptModel.
+From XtModel Require Import Base InputModel Utf8 UtfModel TranscodeModel FidelityModel ChunkerModel MemModel FormatsModel IoModel DetectModel CliModel MsgpackModel JsonModel JsonWriteModel JsonFloatModel JsonFloat32Model JsonTrialModel TomlAcceptModel.
 
 Extraction Language OCaml.
 Extraction "model.ml"
@@ -19,4 +19,4 @@ Extraction "model.ml"
   next_value_size transcode_slice transcode_reader mm_output mm_ok msgpack_matches DEPTH_LIMIT
   json_slice json_reader jm_output jm_ok f64_of_decimal json_to_json msgpack_to_json msgpack_toml_verdict
   json_f64 ryu_ok f_finite json_to_json_f msgpack_to_json_f
-  json_trial_slice json_trial_reader.
+  json_trial_slice json_trial_reader json_f32 json_f32_found.
